@@ -25,6 +25,7 @@ DEFAULT_OPTS = {
   "sloppy": 0,               # C10: probability (in 1/16) that a sub-expression is requested with a wrong width
   "translatable": False,     # stay inside what the RTLIR type checker / translators accept
   "no_sext_compound": False, # exclusion switch for the known finding "sext of a compound operand"
+  "index_chain": 1,          # 0..7: how often (in 1/8) a component gets an explicit "list[ sel ] + slice/field" chain
   "struct_bias": 0,          # 0..4: how often a new signal gets a struct type
   "min_depth": 0,
   "child_bias": 0,           # extra weight for instantiating children in a step
@@ -98,7 +99,11 @@ class ClassBuilder:
     for cnt in dl:
       iw = cnt.bit_length() - 1
       if (1 << iw) == cnt and iw >= 1 and d(st.integers(0, 2)) > 0:
-        idxs.append(self.expr(iw, dict(env, no_lsel=True), 3))
+        plain = [r for r, sw in self.bits_sources() if sw == iw]
+        if plain and d(st.booleans()):
+          idxs.append(["sig", d(st.sampled_from(plain))])           # a bare signal as index: s.xs[s.sel]...
+        else:
+          idxs.append(self.expr(iw, dict(env, no_lsel=True), 3))
       elif env.get("lv") and any(c <= cnt for _, c in env["lv"]) and d(st.booleans()):
         idxs.append(["lv", [n for n, c in env["lv"] if c <= cnt][0]])
       else:
@@ -530,6 +535,30 @@ class ClassBuilder:
     for n in names: self.avail.append((mkref(n), t))
     self.lists.append(("", base, dims, t))
 
+  def index_chain(self):
+    """sel is computed by one block; another block reads list[ sel ] followed by a slice or a field"""
+    d = self.draw
+    cnt = d(st.sampled_from([2, 4]))
+    iw = cnt.bit_length() - 1
+    use_struct = self.opts["structs"] is True and d(st.booleans())
+    t = ["s", "Elem", [["lo", ["b", 3]], ["hi", ["b", 5]]]] if use_struct else ["b", 8]
+    base = self.fresh("lw")
+    parts = []
+    for i in range(cnt):
+      n = f"{base}[{i}]"; self.wires.append([n, t]); parts.extend(self.parts_of(n, t))
+    self.drive(parts)
+    for i in range(cnt): self.avail.append((mkref(f"{base}[{i}]"), t))
+    self.lists.append(("", base, cnt, t))
+    sel = self.fresh("w"); self.wires.append([sel, ["b", iw]])
+    env = {"tmps": [], "lv": [], "maxd": 2, "no_lsel": True}
+    self.blocks.append({"name": self.fresh("up"), "kind": "comb", "stmts": [["assign", mkref(sel), self.expr(iw, env)]]})
+    self.avail.append((mkref(sel), ["b", iw]))
+    out = self.new_signal(["b", 3])
+    if use_struct: e = ["lsel", mkref(base), cnt, ["sig", mkref(sel)], None, ["lo"]]
+    else: e = ["lsel", mkref(base), cnt, ["sig", mkref(sel)], [2, 5], None]
+    self.blocks.append({"name": self.fresh("up"), "kind": "comb", "stmts": [["assign", mkref(out), e]]})
+    self.avail.append((mkref(out), ["b", 3]))
+
   def step_pack(self):
     """a Bits signal that receives the whole packed value of a struct-typed signal (s.flat @= s.in_)"""
     d = self.draw
@@ -622,6 +651,8 @@ class ClassBuilder:
     for _ in range(nsteps):
       if d(st.integers(0, 3)) <= o["child_bias"]: self.step_child()
       else: self.step_signals()
+    if o["lists"] and not o["sloppy"] and d(st.integers(0, 7)) < o["index_chain"]:
+      self.index_chain()
     # ff blocks, created last so they may read everything
     self.regs = regs
     if regs:
